@@ -409,6 +409,7 @@ class Engine:
         self.aborting = None
         self.path_tags = set()
         self.decided = {}
+        self.ndig = 0
 
     def end_path(self, status):
         self.paths += 1
@@ -1684,8 +1685,20 @@ def _int_to_str(v):
         n += 1
         if n > 18:
             raise Unmodelled('str(int) with more than 18 digits')
-    digs = [z3.simplify((a.z / (10 ** (n - 1 - k))) % 10 + 48) for k in range(n)]
-    return mk(eng, (['-'] if neg else []) + [chr(d.as_long()) if z3.is_int_value(d) else d for d in digs])
+    az = z3.simplify(a.z)
+    if z3.is_int_value(az):
+        return mk(eng, (['-'] if neg else []) + list(str(az.as_long())))
+    # digits as fresh variables tied to the value by a linear definition (much easier for the solver than div/mod terms)
+    eng.ndig = getattr(eng, 'ndig', 0) + 1
+    ds = [z3.Int('_dg%d_%d' % (eng.ndig, k)) for k in range(n)]
+    total = ds[0]
+    for d in ds[1:]:
+        total = total * 10 + d
+    cs = [z3.And(d >= 0, d <= 9) for d in ds] + [az == total]
+    if n > 1:
+        cs.append(ds[0] >= 1)
+    eng._add(z3.And(cs))
+    return mk(eng, (['-'] if neg else []) + [d + 48 for d in ds])
 
 
 def str_to_int(s, base=10):
